@@ -4,6 +4,7 @@ go 1.25.7
 
 require (
 	github.com/anishathalye/porcupine v1.3.0
+	github.com/ipfs/go-datastore v0.9.2
 	github.com/libp2p/go-libp2p v0.49.0
 	github.com/libp2p/go-libp2p-kad-dht v0.40.0
 	github.com/multiformats/go-multiaddr v0.16.1
@@ -22,7 +23,6 @@ require (
 	github.com/hashicorp/golang-lru v1.0.2 // indirect
 	github.com/ipfs/boxo v0.41.0 // indirect
 	github.com/ipfs/go-cid v0.6.2 // indirect
-	github.com/ipfs/go-datastore v0.9.2 // indirect
 	github.com/ipfs/go-log/v2 v2.9.2 // indirect
 	github.com/ipld/go-ipld-prime v0.24.0 // indirect
 	github.com/klauspost/cpuid/v2 v2.4.0 // indirect
